@@ -361,14 +361,15 @@ Theorem fold_chunks T esc s t1 t2 : s_run T esc s (t1 ++ t2) = s_run T esc (s_ru
 Proof. unfold s_run. apply fold_left_app. Qed.
 
 (* ---------- a text that stops inside a form is reported ---------- *)
+Lemma wrap_marks_depth : forall st t, depth_of {| stack := fst (wrap_marks st t); code := [] |} = depth_of {| stack := st; code := [] |}.
+Proof. induction st as [|[k|w|x] st IH]; intros t; cbn [wrap_marks fst]; try reflexivity. rewrite IH. reflexivity. Qed.
 Lemma depth_push_val p t : depth_of (push_val p t) = depth_of p.
-Proof. unfold push_val, depth_of. destruct (stack p) eqn:E; cbn; reflexivity. Qed.
-Lemma depth_push_token p tok : depth_of (push_token p tok) = depth_of p.
 Proof.
-  unfold push_token. destruct (is_t tok); [apply depth_push_val|]. destruct (is_nil_tok tok); [apply depth_push_val|].
-  destruct (stack p) as [|[k|w|t] rest] eqn:E; try apply depth_push_val.
-  destruct rest; unfold depth_of; rewrite E; reflexivity.
+  unfold push_val. pose proof (wrap_marks_depth (stack p) t) as H. destruct (wrap_marks (stack p) t) as [st t']. cbn [fst] in H.
+  unfold depth_of in *. cbn [stack] in *. destruct st; cbn [stack]; rewrite <- H; reflexivity.
 Qed.
+Lemma depth_push_token p tok : depth_of (push_token p tok) = depth_of p.
+Proof. unfold push_token. apply depth_push_val. Qed.
 Lemma emit_depth c k lex : c_err c = None -> c_err (emit c k lex) <> None \/ depth_of (c_p (emit c k lex)) = depth_of (c_p c).
 Proof.
   intros E. unfold emit. destruct k; cbn; try (right; apply depth_push_val); try (right; apply depth_push_token).
